@@ -8,6 +8,7 @@ Used by rules that compare small arithmetic functions (index clamping, range ari
 finite grid of arguments.  Memory reads (fields, array elements) are *atoms*: looked up (by canonical expression) in a table
 the rule supplies, and updated by assignments; calls are answered by a hook the rule supplies.  Nothing of the library runs.
 """
+import re
 from . import ir, util
 
 
@@ -104,8 +105,9 @@ def common(t1, t2):
 
 
 class CInt:
-    def __init__(self, P, fn, atoms=None, call=None, N=None, max_steps=2000, recurse=False, depth=0, mem=None, memw=None, max_depth=4):
+    def __init__(self, P, fn, atoms=None, call=None, N=None, max_steps=2000, recurse=False, depth=0, mem=None, memw=None, max_depth=4, strict=False):
         self.recurse, self.depth, self.max_depth = recurse, depth, max_depth
+        self.strict = strict                 # a statement that cannot be evaluated stops the run (instead of being skipped, its targets forgotten)
         self.mem = mem                       # mem(address, interpreter) -> value of *address for integer addresses
         self.unknown = None                  # unknown(element key) -> value for a field the rule gave no value (see all_unknown)
         self.memw = memw                     # memw(address, value, width, interpreter): a store through an integer address
@@ -196,6 +198,11 @@ class CInt:
 
     def ev(self, e):
         k = e[0]
+        if k in ('cast', 'call'):
+            st = ir.as_stack(e)
+            if st is not None and st[0] in ('Int', 'Float', 'Ref', 'Box', 'String'):
+                # a boxed value on the stack: `$I(x)`, `$(Int, x)`, ... -> ('stack', type name, field values)
+                return ('stack', st[0], tuple(self.ev(f) for f in st[1]))
         if k in ('cast', 'icast'):
             return wrap(self.ev(e[2]), e[1])
         if k == 'int':
@@ -223,7 +230,23 @@ class CInt:
             key = self.atom_key(e)
             if key in self.atoms:
                 return self.atoms[key]
+            lt = self.ltypes.get(e[2]) or ''
+            m_ = re.match(r'^(.*)\[(\d+)\]$', str(lt).strip())
+            if m_:
+                # a local array: its name is the address of its first element
+                v = ('ep', ('local-array', self.fn['name'], e[1], id(self)), 0)
+                self.locals[e[2]] = v
+                return v
             raise NoEval('local %s has no value' % e[1])
+        if k == 'un' and e[1] == '*':
+            try:
+                pv = self.ev(e[2])
+            except NoEval:
+                pv = None
+            if isinstance(pv, tuple) and pv and pv[0] == 'lref':
+                if pv[2] in pv[1].locals:
+                    return pv[1].locals[pv[2]]
+                raise NoEval('read through a pointer to a local that has no value yet')
         if k in ('arrow', 'dot', 'idx') or (k == 'un' and e[1] == '*'):
             ep = self.elem_lvalue(e)
             if ep is not None:
@@ -267,6 +290,13 @@ class CInt:
             key = ('sizeof', ir.fmt(e))
             if key in self.atoms:
                 return self.atoms[key]
+            if len(e) > 2 and isinstance(e[2], tuple) and ir.top_nocast(e[2])[0] == 'local':
+                lt = str(self.ltypes.get(ir.top_nocast(e[2])[2]) or '').strip()
+                m_ = re.match(r'^(.*)\[(\d+)\]$', lt)
+                if m_:
+                    esz = pointee(m_.group(1).strip() + ' *')[1]
+                    if esz:
+                        return int(m_.group(2)) * esz
             if 'struct Header' in ir.fmt(e):
                 return 8 * len(self.P.records['Header']['fields']) if 'Header' in self.P.records else 24
             from .loops import ev as lev, NoEval as LNo
@@ -288,7 +318,7 @@ class CInt:
                 callee = self.P.fn(ir.callee_name(e), required=False)
                 if callee is not None and callee.get('body') is not None:
                     args = [self.ev(a) for a in e[2]]
-                    sub = CInt(self.P, callee, atoms=self.atoms, call=self.call, max_steps=self.max_steps, recurse=True, depth=self.depth + 1, mem=self.mem, memw=self.memw, max_depth=self.max_depth)
+                    sub = CInt(self.P, callee, atoms=self.atoms, call=self.call, max_steps=self.max_steps, recurse=True, depth=self.depth + 1, mem=self.mem, memw=self.memw, max_depth=self.max_depth, strict=self.strict)
                     sub.atoms = self.atoms           # shared memory
                     sub.unknown = self.unknown
                     r = sub.run(args)
@@ -321,6 +351,8 @@ class CInt:
                             return b + self.ev(t[2]) * sz
                 if t[0] == 'un' and t[1] == '*':
                     return self.ev(t[2])
+                if t[0] == 'local':
+                    return ('lref', self, t[2])          # the address of a local: read and written through by callees (out parameters)
                 raise NoEval('address of %s' % ir.fmt(t)[:40])
             v = self.ev(e[2])
             if op == '!':
@@ -462,6 +494,14 @@ class CInt:
         if ep is not None:
             self.atoms[ep] = v
             return
+        if t[0] == 'un' and t[1] == '*':
+            try:
+                pv = self.ev(t[2])
+            except NoEval:
+                pv = None
+            if isinstance(pv, tuple) and pv and pv[0] == 'lref':
+                pv[1].locals[pv[2]] = v
+                return
         if t[0] == 'local':
             self.locals[t[2]] = v
         elif t[0] == 'param':
@@ -523,6 +563,8 @@ class CInt:
                     try:
                         self.ev(node['expr'])
                     except NoEval:
+                        if self.strict:
+                            raise
                         # a statement the rule gave no meaning to: forget what it assigns
                         for ev_ in util.expr_events(node['expr'], node):
                             if ev_['t'] == 'write':
